@@ -49,8 +49,10 @@ def strategy_case(draw):
     else:
         case["RE"] = draw(gen.ranks(d, 3))
     # the residual clause is relative: scaling the right-hand side or the operator by 10^k must not matter
-    case["scale_b"] = draw(st.sampled_from([0, 0, 0, 0, -6, -3, 3, 6]))
-    case["scale_A"] = draw(st.sampled_from([0, 0, 0, 0, -6, -3, 3, 6]))
+    case["scale_b"] = draw(st.sampled_from([0, 0, 0, 0, -6, -3, 3, 6, -170, 170, -250, 250]))
+    case["scale_A"] = draw(st.sampled_from([0, 0, 0, 0, -6, -3, 3, 6, -120, 120]))
+    if abs(case["scale_b"] - case["scale_A"]) > 280:
+        case["scale_A"] = 0          # the solution itself (~ 10^(scale_b - scale_A)) has to be representable
     # special right-hand sides: the zero tensor, or a unit tensor e_(0,..,0) together with the initial guess e_(0,..,0,1)
     # (the guess is orthogonal to b, so the interfaces <b, x0> vanish exactly)
     # or b = A @ ones, which the solver's default start tensor (all ones) already solves exactly
